@@ -132,7 +132,10 @@ pub fn run_srv(case: &str) -> String {
     use std::io::{Read, Write};
     let f: Vec<&str> = case.split(' ').collect();
     let (mode, k, maxev): (String, usize, usize) = (f[0].to_string(), f[1].parse().unwrap(), f[2].parse().unwrap());
-    crate::s_conn::MEET.store(0, Ordering::SeqCst);
+    // optional fourth field: an idle gap in ms after which the rendezvous is repeated on the same server (own counter)
+    let idle: u64 = f.get(3).map(|x| x.parse().unwrap()).unwrap_or(0);
+    let (meet, route) = if idle > 0 { (&crate::s_conn::MEETB, "meetb") } else { (&crate::s_conn::MEET, "meet") };
+    meet.store(0, Ordering::SeqCst);
     let port = { let l = std::net::TcpListener::bind("127.0.0.1:0").unwrap(); l.local_addr().unwrap().port() };
     let stop = Arc::new(AtomicBool::new(false));
     let mut b = khttp::Server::builder(("127.0.0.1", port)).unwrap();
@@ -148,16 +151,22 @@ pub fn run_srv(case: &str) -> String {
         let t = Instant::now();
         loop { match std::net::TcpStream::connect(("127.0.0.1", port)) { Ok(s) => return Some(s), Err(_) => { if t.elapsed() > Duration::from_secs(2) { return None; } std::thread::sleep(Duration::from_millis(1)); } } }
     };
+    let mut all_outs: Vec<String> = Vec::new();
+    for round in 0..(if idle > 0 { 2 } else { 1 }) {
+    if round > 0 { std::thread::sleep(Duration::from_millis(idle)); meet.store(0, Ordering::SeqCst); }
     let hs: Vec<_> = (0..k).map(|_| std::thread::spawn(move || -> String {
         let mut s = match connect() { Some(s) => s, None => return "NOCONNECT".into() };
         s.set_read_timeout(Some(Duration::from_secs(4))).unwrap();
-        let _ = s.write_all(format!("GET /meet/{k} HTTP/1.1\r\nConnection: close\r\n\r\n").as_bytes());
+        let _ = s.write_all(format!("GET /{route}/{k} HTTP/1.1\r\nConnection: close\r\n\r\n").as_bytes());
         let mut buf = Vec::new();
         let mut tmp = [0u8; 1024];
         loop { match s.read(&mut tmp) { Ok(0) | Err(_) => break, Ok(n) => { buf.extend_from_slice(&tmp[..n]); if buf.windows(4).any(|w| w == b"\r\n\r\n") && buf.len() > 40 { break; } } } }
         String::from_utf8_lossy(&buf).split(' ').nth(1).unwrap_or("NORESPONSE").to_string()
     })).collect();
     let outs: Vec<String> = hs.into_iter().map(|h| h.join().unwrap_or_else(|_| "PANIC".into())).collect();
+    all_outs.extend(outs);
+    }
+    let outs = all_outs;
     stop.store(true, Ordering::SeqCst);
     let _ = connect();
     let t0 = Instant::now();
@@ -169,8 +178,13 @@ pub fn run_srv(case: &str) -> String {
 pub fn gen_srv(ctx: &Ctx) {
     let mut out = Out::new(&ctx.dir, "poolsrv");
     out.rule = "serve() and serve_epoll() with thread_count k in 2..4 (thorough ..8) and epoll_queue_max_events in {1, 2, 512}: k connections whose handlers answer 200 only once all k are running \
-                at the same time (503 after 2 s). non-trivial = all".into();
+                at the same time (503 after 2 s); one history (thorough: three) repeats the rendezvous on the same server after an idle gap of 5.6 s. non-trivial = all".into();
     let kmax = if ctx.thorough { 8 } else { 4 };
+    // idle gaps: after a first rendezvous the server is left alone for 5.6 s (thorough: also 2 x 5.6 s on another server), then
+    // the k handlers must meet again - all workers must still be there (seed C13-h: an idle worker gave up after 5 s).  These
+    // histories run beside the others (they mostly sleep) on their own rendezvous counter.
+    let idle_cases: Vec<String> = if ctx.thorough { vec!["pool 2 512 5600".into(), "epoll 3 512 5600".into(), "pool 3 512 11200".into()] } else { vec!["pool 2 512 5600".into()] };
+    let idle_thread = { let cs = idle_cases.clone(); std::thread::spawn(move || cs.iter().map(|c| run_srv(c)).collect::<Vec<String>>()) };
     for mode in ["pool", "epoll"] {
         for k in 2..=kmax {
             for maxev in [1usize, 2, 512] {
@@ -181,6 +195,8 @@ pub fn gen_srv(ctx: &Ctx) {
             }
         }
     }
+    let rs = idle_thread.join().unwrap_or_default();
+    for (c, r) in idle_cases.iter().zip(rs.iter()) { out.emit(c, r, "idle-gap", true); }
     let _ = ctx.seed;
     out.finish();
 }
